@@ -2,6 +2,8 @@ package main
 
 import (
 	"fmt"
+	"strings"
+	"sync"
 
 	"github.com/markkurossi/mpc/circuit"
 	"github.com/markkurossi/mpc/ot"
@@ -206,6 +208,158 @@ func runC01(c *Ctx) error {
 			g.Release()
 			if round%2 == 1 {
 				g.Release() // releasing twice is harmless
+			}
+		}
+	}
+	return c01Concurrent(c)
+}
+
+// c01Concurrent: several independent sessions (own key, own randomness, own garbling, own
+// wire buffer) are evaluated AT THE SAME TIME on one shared *circuit.Circuit, next to a
+// goroutine that keeps garbling and one that keeps calling Compute.  C01 quantifies over
+// circuits x inputs x keys x randomness; it must hold for each of these sessions whatever
+// else is using the circuit value (the sharing discipline itself is property C17).  Oracle
+// only: the model is sequential and the sessions are the same function of their inputs.
+func c01Concurrent(c *Ctx) error {
+	nc := c.N(4, 60)
+	keyLens := []int{16, 24, 32}
+	for ci := 0; ci < nc; ci++ {
+		r := c.rng.Fork()
+		circ := GenCircuit(r, GenOpts{MinIn: 4, MaxIn: 10, MinGates: 1200, MaxGates: 2500, MaxOut: 8, Overwrite: true})
+		ni := circ.Inputs.Size()
+		no := circ.Outputs.Size()
+		type sess struct {
+			key  []byte
+			gw   []ot.Wire
+			gt   [][]ot.Label
+			xs   [][]bool
+			bad  string
+			badX string
+		}
+		const K = 8
+		ss := make([]*sess, K)
+		for k := range ss {
+			s := &sess{key: r.Bytes(keyLens[(ci+k)%3])}
+			g, err := circ.Garble(&blockLog{r: r.Fork()}, s.key)
+			if err != nil {
+				return fmt.Errorf("concurrent %d: Garble: %v", ci, err)
+			}
+			s.gw = append([]ot.Wire(nil), g.Wires...)
+			s.gt = make([][]ot.Label, len(g.Gates))
+			for j, row := range g.Gates {
+				s.gt[j] = append([]ot.Label(nil), row...)
+			}
+			g.Release()
+			for j := 0; j < 6; j++ {
+				x := make([]bool, ni)
+				for b := range x {
+					x[b] = r.Bool()
+				}
+				s.xs = append(s.xs, x)
+			}
+			ss[k] = s
+		}
+		// each session alone first (sequentially): must be correct
+		for k, s := range ss {
+			for _, x := range s.xs {
+				wires := make([]ot.Label, circ.NumWires)
+				for b := 0; b < ni; b++ {
+					wires[b] = circuit.LabelForBit(s.gw[b], x[b])
+				}
+				ok := circ.Eval(s.key, wires, s.gt) == nil
+				want := TruthEval(circ, x)
+				for o := 0; o < no && ok; o++ {
+					w := circ.NumWires - no + o
+					bit, err := circuit.BitFromLabel(s.gw[w], wires[w])
+					ok = err == nil && bit == want[o]
+				}
+				if !ok {
+					c.Fail("c01:garbled evaluation differs from truth-table evaluation", "session evaluated alone (concurrent phase, sequential pre-run) is wrong",
+						c01Replay{Seed: c.Seed, Case: ci, Round: k, Circuit: circuitText(circ), Key: fmt.Sprintf("%x", s.key), X: bitsString(x)})
+				}
+			}
+		}
+		start := make(chan struct{})
+		done := make(chan struct{})
+		var wg, bg sync.WaitGroup
+		for k := range ss {
+			wg.Add(1)
+			go func(s *sess) {
+				defer wg.Done()
+				<-start
+				for rep := 0; rep < 3; rep++ {
+					for _, x := range s.xs {
+						wires := make([]ot.Label, circ.NumWires)
+						for b := 0; b < ni; b++ {
+							wires[b] = circuit.LabelForBit(s.gw[b], x[b])
+						}
+						bad := ""
+						if err := circ.Eval(s.key, wires, s.gt); err != nil {
+							bad = "Eval error: " + err.Error()
+						} else {
+							want := TruthEval(circ, x)
+							for o := 0; o < no && bad == ""; o++ {
+								w := circ.NumWires - no + o
+								bit, err := circuit.BitFromLabel(s.gw[w], wires[w])
+								if err != nil {
+									bad = fmt.Sprintf("output %d: label is neither L0 nor L1", o)
+								} else if bit != want[o] {
+									bad = fmt.Sprintf("output %d decodes to the wrong bit", o)
+								}
+							}
+						}
+						if bad != "" && s.bad == "" {
+							s.bad, s.badX = bad, bitsString(x)
+						}
+					}
+				}
+			}(ss[k])
+		}
+		// background users of the same circuit value
+		bgr1, bgr2 := r.Fork(), r.Fork()
+		bg.Add(2)
+		go func() {
+			defer bg.Done()
+			<-start
+			for {
+				select {
+				case <-done:
+					return
+				default:
+				}
+				if g, err := circ.Garble(&blockLog{r: bgr1.Fork()}, bgr1.Bytes(16)); err == nil {
+					g.Release()
+				}
+			}
+		}()
+		go func() {
+			defer bg.Done()
+			<-start
+			x := make([]bool, ni)
+			for {
+				select {
+				case <-done:
+					return
+				default:
+				}
+				for b := range x {
+					x[b] = bgr2.Bool()
+				}
+				circ.Compute(SplitInputs(circ, x))
+			}
+		}()
+		close(start)
+		wg.Wait()
+		close(done)
+		bg.Wait()
+		c.Hist("concurrent:sessions-on-one-circuit")
+		for k, s := range ss {
+			c.Eval(fmt.Sprintf("conc|%d|%d|%x", ci, k, s.key), true)
+			if s.bad != "" {
+				c.Fail("c01:concurrent-sessions-on-one-circuit:"+strings.SplitN(s.bad, ":", 2)[0],
+					fmt.Sprintf("session %d of %d (own key, own garbling) evaluated concurrently with the others on one *circuit.Circuit: %s; the same session evaluated alone is correct", k, K, s.bad),
+					c01Replay{Seed: c.Seed, Case: ci, Round: k, Circuit: fmt.Sprintf("generated circuit #%d of the concurrent phase (%d gates)", ci, len(circ.Gates)),
+						Key: fmt.Sprintf("%x", s.key), X: s.badX})
 			}
 		}
 	}
